@@ -99,7 +99,7 @@ Coefs == << C("1", 1, 0), C("0.5", 1, 1), C("0.25", 1, 2), C("1.5", 3, 1), C("2.
             C("86399.5", 172799, 1) >>
 
 RECURSIVE TimesSeq(_, _, _)
-TimesSeq(x, fs, i) == IF i > Len(fs) THEN x ELSE TimesSeq(MTimes(x, fs[i]), fs, i + 1)
+TimesSeq(x, fs, i) == IF i > Len(fs) THEN x ELSE The({ TimesSeq(y, fs, i + 1) : y \in {MTimes(x, fs[i])} })
 RECURSIVE ProdText(_, _)
 ProdText(fs, i) == IF i = Len(fs) THEN ToString(fs[i]) ELSE ToString(fs[i]) \o " * " \o ProdText(fs, i + 1)
 RECURSIVE Pow2(_)
